@@ -176,11 +176,42 @@ func init() {
 		if err != nil {
 			return err
 		}
-		ne := comparedStrings(q, token.NEQ)
-		if len(ne) != 2 {
-			return fmt.Errorf("QualifiesForManagedTLS: expected two != comparisons with literals, found %q", ne)
+		ne, err := one(comparedStrings(q, token.NEQ), "QualifiesForManagedTLS != literals")
+		if err != nil {
+			return err
 		}
-		fmt.Fprintf(b, "/-- caskettls/tls.go:QualifiesForManagedTLS: `c.Port() != %q`, `tlsConfig.ACMEEmail != %q` -/\ndef unmanagedPort : List UInt8 := %s\ndef unmanagedEmail : List UInt8 := %s\n\n", ne[0], ne[1], leanBytes(ne[0]), leanBytes(ne[1]))
+		// the port test must be against the configured HTTP port: c.Port() != strconv.Itoa(certmagic.HTTPPort)
+		usesHTTPPort := false
+		ast.Inspect(q, func(n ast.Node) bool {
+			be, ok := n.(*ast.BinaryExpr)
+			if !ok || be.Op != token.NEQ {
+				return true
+			}
+			isPortCall := func(e ast.Expr) bool {
+				ce, ok := e.(*ast.CallExpr)
+				if !ok {
+					return false
+				}
+				sel, ok := ce.Fun.(*ast.SelectorExpr)
+				return ok && sel.Sel.Name == "Port"
+			}
+			mentionsHTTPPort := func(e ast.Expr) bool {
+				found := false
+				ast.Inspect(e, func(m ast.Node) bool {
+					if sel, ok := m.(*ast.SelectorExpr); ok && sel.Sel.Name == "HTTPPort" {
+						found = true
+					}
+					return true
+				})
+				return found
+			}
+			if (isPortCall(be.X) && mentionsHTTPPort(be.Y)) || (isPortCall(be.Y) && mentionsHTTPPort(be.X)) {
+				usesHTTPPort = true
+			}
+			return true
+		})
+		fmt.Fprintf(b, "/-- caskettls/tls.go:QualifiesForManagedTLS: `tlsConfig.ACMEEmail != %q` -/\ndef unmanagedEmail : List UInt8 := %s\n", ne, leanBytes(ne))
+		fmt.Fprintf(b, "/-- caskettls/tls.go:QualifiesForManagedTLS compares c.Port() with the configured certmagic.HTTPPort -/\ndef qualifiesComparesConfiguredHTTPPort : Bool := %v\n\n", usesHTTPPort)
 
 		// ---- plugin.go ----
 		pf, err := Parse(filepath.Join(repo, "caskethttp/httpserver/plugin.go"))
